@@ -13,7 +13,7 @@ V = Path(__file__).resolve().parent.parent
 
 def run(item):
     patch, pid = item
-    p = subprocess.run([str(V / "tools" / "trymut"), str(patch), pid], capture_output=True, text=True, env={**__import__("os").environ, "VERIF_JOBS": "8"})
+    p = subprocess.run([str(V / "tools" / "trymut"), str(patch), pid], capture_output=True, text=True, errors="replace", env={**__import__("os").environ, "VERIF_JOBS": "8"})   # trymut cuts long lines, possibly inside a character
     out = p.stdout
     caught = "exit=1" in out and "VIOLATION" in out
     sigs = [ln.split("signature=")[1][:110] for ln in out.splitlines() if "signature=" in ln][:2]
@@ -34,7 +34,7 @@ def main():
             pid = m.get("check") or m["property"]   # "check": the property whose check catches it, when not the seeded one
             if not only or pid in only:
                 items.append((d / "patch.diff", pid))
-    with ThreadPoolExecutor(max_workers=3) as ex:
+    with ThreadPoolExecutor(max_workers=4) as ex:
         results = list(ex.map(run, items))
     missed = 0
     for patch, pid, caught, sigs, pf in results:
